@@ -16,7 +16,7 @@ CHECK_DEADLOCK FALSE
 """
 ALL_SLOTS = ["out_amount", "second_out", "optional_out", "local_amount", "out_datum", "out_to", "since", "until",
              "mint_amount", "burn_amount", "mint_burn", "mint_redeemer", "input_redeemer", "signer", "meta_value",
-             "meta_key", "reference", "min_amount"]
+             "meta_key", "reference", "min_amount", "donation", "witness", "two_witnesses", "publish", "vote_deleg"]
 
 
 def q(xs):
@@ -164,7 +164,7 @@ def canary(rep, evs, tag):
 
 
 # ------------------------------------------------------------------------------------- C02
-B_SLOTS = ["b_out_amount", "b_mint", "b_burn", "b_mint2", "b_burn2", "b_mint_burn", "b_since", "b_until", "b_meta_value", "b_meta_key", "b_datum", "b_redeemer",
+B_SLOTS = ["b_out_amount", "b_mint", "b_burn", "b_mint2", "b_burn2", "b_mint_burn", "b_mint3", "b_donation", "b_publish", "b_since", "b_until", "b_meta_value", "b_meta_key", "b_datum", "b_redeemer",
            "b_index", "b_balanced"]
 
 
@@ -223,7 +223,8 @@ CHECK_DEADLOCK FALSE
 """
 FEATURES = ["metadata", "input_redeemer", "mint", "mint_redeemer", "burn_same", "burn_other_asset", "burn_all",
             "optional_empty", "optional_full", "reference", "reference_twice", "collateral", "signers", "signers_dup",
-            "signers_apart", "datum", "second_input", "validity"]
+            "signers_apart", "datum", "second_input", "validity",
+            "donation", "plutus_witness", "plutus_witness_v2", "native_witness", "publish_script", "vote_deleg"]
 
 
 def gen_ledger(rep, mode, tag, ninputs=2, features=(), ixs=(0,), nfs=(0,), workers=6, simulate=None, seed=None):
@@ -351,16 +352,20 @@ def check_c10(tier, seed):
     core.build_driver()
     quick = tier == "quick"
     feats = FEATURES if not quick else ["metadata", "input_redeemer", "mint", "mint_redeemer", "burn_same", "burn_other_asset",
-                                        "burn_all", "optional_empty", "reference_twice", "signers", "signers_dup", "signers_apart", "collateral"]
+                                        "burn_all", "optional_empty", "reference_twice", "signers", "signers_dup", "signers_apart", "collateral",
+                                        "donation", "plutus_witness", "plutus_witness_v2", "native_witness", "publish_script", "vote_deleg"]
     cases = gen_ledger(rep, "c10", "c10_mc", features=feats, workers=6 if quick else 12)
     rep.exhaustive = True
     rng = random.Random(seed)
     limit = 4096 if quick else 40000
     if len(cases) > limit:
-        rng.shuffle(cases)
-        cases = cases[:limit]
+        chain = {"donation", "plutus_witness", "plutus_witness_v2", "native_witness", "publish_script", "vote_deleg"}
+        keep = [c for c in cases if chain & set(c["meta"]["fs"])]       # the chain-specific part of the lattice is never sampled away
+        rest = [c for c in cases if not chain & set(c["meta"]["fs"])]
+        rng.shuffle(rest)
+        cases = keep + rest[:max(limit - len(keep), 0)]
         rep.exhaustive = False
-        rep.notes.append(f"lattice sampled to {limit} subsets")
+        rep.notes.append(f"core lattice sampled to {max(limit - len(keep), 0)} subsets; all {len(keep)} subsets with chain-specific blocks kept")
     # configurations: network x cost models
     full = []
     for i, c in enumerate(cases):
